@@ -8,6 +8,7 @@ spec/Layouts.tla; units come from the same export and from the harness' own CODA
 from __future__ import annotations
 
 import json
+import os
 
 import numpy as np
 
@@ -618,6 +619,29 @@ def w_wfx(m, lay, rng, variant):
     return "m.wfx", "\n".join(lines) + "\n", exp
 
 
+def w_mwfn(m, lay, rng, variant):
+    """A Multiwfn .mwfn file of the test data with the $Centers table re-written: coordinates and nuclear charges carry tags
+    (an effective-core-potential calculation has nuclear charges below the atomic numbers).  Everything else is left as it is."""
+    import re as _re
+    from .core import REPO
+    src = os.path.join(REPO, "iodata", "test", "data", ["ch3_hf_sto3g_fchk_multiwfn3.7.mwfn", "ch3_rohf_sto3g_g03_fchk_multiwfn3.7.mwfn"][m.natom % 2])
+    lines = open(src).read().splitlines()
+    i0 = next(i for i, ln in enumerate(lines) if ln.strip() == "$Centers") + 1
+    z, q, xyz = [], [], []
+    k = 0
+    while _re.match(r"\s*\d+\s+[A-Za-z]+\s+\d+\s", lines[i0 + k]):
+        w = lines[i0 + k].split()
+        zi = int(w[2])
+        qi = float(zi) if (variant != "ecp" or zi < 3) else float(zi - 2)
+        r = [round(float(w[4 + a]) + 0.011 * (k + 1) * (-1) ** a, 8) for a in range(3)]
+        lines[i0 + k] = f"{int(w[0]):6d} {w[1]:<2s}{zi:5d}{qi:6.1f}{r[0]:16.8f}{r[1]:16.8f}{r[2]:16.8f}"
+        z.append(zi)
+        q.append(qi)
+        xyz.append(r)
+        k += 1
+    return "m.mwfn", "\n".join(lines) + "\n", {"atnums": z, "atcorenums": q, "atcoords": np.array(xyz)}
+
+
 def _fchk_array(lay, label, vals, real):
     rec = lay["fchk_rarray" if real else "fchk_iarray"]
     out = [render_record(rec, {"label": label, "count": len(vals)})]
@@ -713,14 +737,14 @@ def w_fchk(m, lay, rng, variant):
 WRITERS = {"xyz": w_xyz, "extxyz": w_extxyz, "sdf": w_sdf, "pdb": w_pdb, "gromacs": w_gro, "charmm": w_crd, "mol2": w_mol2,
            "poscar": w_poscar, "chgcar": w_chgcar, "locpot": w_locpot, "cube": w_cube, "fcidump": w_fcidump,
            "gaussianinput": w_gaussianinput, "json_qcschema": w_json, "fchk": w_fchk, "gaussianlog": w_gaussianlog,
-           "orcalog": w_orcalog, "gamess": w_gamess, "qchemlog": w_qchemlog, "wfx": w_wfx}
+           "orcalog": w_orcalog, "gamess": w_gamess, "qchemlog": w_qchemlog, "wfx": w_wfx, "mwfn": w_mwfn}
 VARIANTS = {"xyz": ["plain", "numbers"], "poscar": ["direct", "cartesian", "selective", "scaled", "repeated"], "cube": ["five", "ragged", "six", "one", "nval"],
             "gromacs": ["rect", "triclinic"], "json_qcschema": ["plain", "massnumbers"], "gaussianlog": ["plain", "twoel"], "orcalog": ["plain", "opt", "longscf"], "gamess": ["plain", "opt"],
             "qchemlog": ["plain", "unrestricted", "freq"], "wfx": ["plain", "gradient", "gradient_permuted"], "fchk": ["plain", "shuffled"],
-            "gaussianinput": ["plain", "route_units", "route_long"], "fcidump": ["plain", "upper"]}
+            "gaussianinput": ["plain", "route_units", "route_long"], "fcidump": ["plain", "upper"], "mwfn": ["plain", "ecp"]}
 # coordinate digits written per format and the magnitude classes its columns can hold
 DIGITS = {"xyz": 8, "extxyz": 8, "sdf": 4, "pdb": 3, "gromacs": 3, "charmm": 5, "mol2": 4, "poscar": 8, "chgcar": 8, "locpot": 8, "cube": 6,
-          "fcidump": 3, "gaussianinput": 8, "json_qcschema": 8, "fchk": 8, "gaussianlog": 6, "orcalog": 6, "gamess": 10, "qchemlog": 10, "wfx": 10}
+          "fcidump": 3, "gaussianinput": 8, "json_qcschema": 8, "fchk": 8, "gaussianlog": 6, "orcalog": 6, "gamess": 10, "qchemlog": 10, "wfx": 10, "mwfn": 8}
 MAGS = {"sdf": ["small", "neg", "negwide", "negwider", "wide", "mixed"], "pdb": ["small", "neg", "negwide", "wide", "mixed"],
         "gromacs": ["small", "neg", "neghundred", "hundred", "mixed"], "charmm": ["small", "neg", "negwide", "negwider", "mixed"],
         "mol2": ["small", "negwide", "negwider", "mixed"], "cube": ["small", "neg", "negwide", "mixed"]}
@@ -729,5 +753,5 @@ SIZES = {"xyz": [1, 3, 10, 100, 1200], "extxyz": [1, 3, 10, 120], "sdf": [1, 2, 
          "mol2": [1, 2, 10, 100, 1000], "poscar": [1, 2, 5, 8, 30], "chgcar": [1, 2, 5, 8], "locpot": [1, 2, 5], "cube": [1, 2, 3, 7],
          "fcidump": [1, 2, 3, 4], "gaussianinput": [1, 3, 10, 60], "json_qcschema": [1, 3, 10, 100], "fchk": [1, 2, 3, 5, 6, 7, 11],
          "gaussianlog": [1, 2, 4, 5, 6, 7, 10, 11, 12, 16, 21], "orcalog": [1, 2, 3, 10, 100, 120], "gamess": [1, 2, 3, 4, 5, 6, 11, 34],
-         "qchemlog": [1, 2, 3, 4, 5, 7, 12, 30], "wfx": [1, 2, 3, 4, 7, 12]}
+         "qchemlog": [1, 2, 3, 4, 5, 7, 12, 30], "wfx": [1, 2, 3, 4, 7, 12], "mwfn": [1, 2]}
 COORD_UNIT = {"gromacs": "nanometer", "cube": "au", "fchk": "au", "json_qcschema": "au", "orcalog": "au", "wfx": "au"}
